@@ -275,7 +275,7 @@ pub fn random(args: &Args) {
                     pending.push((now + delay, ipv4_packet(dst_ip, [10, 0, 0, 1], 17, 1, 64, &udp_datagram(53, *sport, &m), true)));
                 } else {
                     // hostile variants: each must NOT complete the query with an address
-                    let v = rng.below(15);
+                    let v = rng.below(18);
                     let good = vec![Rr { name: name.clone(), ptr: true, ty: 1, a: [66, 66, 66, 66], cname: String::new() }];
                     let (mid, mflags, mname, mqt, qd, rrs, trunc, evil, src, sp, dp): (u16, u16, String, u16, u16, Vec<Rr>, Option<usize>, u8, [u8; 4], u16, u16) = match v {
                         0 => (id ^ 1, 0x8180, name.clone(), qt, 1, good, None, 0, dst_ip, 53, *sport),                 // wrong transaction id
@@ -293,7 +293,17 @@ pub fn random(args: &Args) {
                         11 => { let q2 = name.split('.').next().unwrap().to_string(); (id, 0x8180, q2.clone(), qt, 1, vec![Rr { name: q2, ptr: true, ty: 1, a: [66, 66, 66, 66], cname: String::new() }], None, 0, dst_ip, 53, *sport) }
                         12 => { let q2 = format!("{}.evil.net", name); (id, 0x8180, q2.clone(), qt, 1, vec![Rr { name: q2, ptr: true, ty: 1, a: [66, 66, 66, 66], cname: String::new() }], None, 0, dst_ip, 53, *sport) }
                         13 => (id, 0x8180, name.clone(), qt, 1, vec![Rr { name: format!("{}.evil.net", name), ptr: false, ty: 1, a: [66, 66, 66, 66], cname: String::new() }], None, 0, dst_ip, 53, *sport),
-                        _ => (id, 0x8180, name.clone(), qt, 1, vec![Rr { name: name.split('.').next().unwrap().to_string(), ptr: false, ty: 1, a: [66, 66, 66, 66], cname: String::new() }], None, 0, dst_ip, 53, *sport),
+                        14 => (id, 0x8180, name.clone(), qt, 1, vec![Rr { name: name.split('.').next().unwrap().to_string(), ptr: false, ty: 1, a: [66, 66, 66, 66], cname: String::new() }], None, 0, dst_ip, 53, *sport),
+                        // a CNAME owned by a foreign name (not on the chain from the queried name) and an address for its target,
+                        // alone / in front of / behind a genuine record for the queried name
+                        15 => (id, 0x8180, name.clone(), qt, 1, vec![Rr { name: "other.example.org".into(), ptr: false, ty: 5, a: [0; 4], cname: "alias.evil.net".into() },
+                                                                       Rr { name: "alias.evil.net".into(), ptr: false, ty: 1, a: [66, 66, 66, 66], cname: String::new() }], None, 0, dst_ip, 53, *sport),
+                        16 => (id, 0x8180, name.clone(), qt, 1, vec![Rr { name: "other.example.org".into(), ptr: false, ty: 5, a: [0; 4], cname: "alias.evil.net".into() },
+                                                                       Rr { name: "alias.evil.net".into(), ptr: false, ty: 1, a: [66, 66, 66, 66], cname: String::new() },
+                                                                       Rr { name: name.clone(), ptr: true, ty: 1, a: [1, 2, 3, 4], cname: String::new() }], None, 0, dst_ip, 53, *sport),
+                        _ => (id, 0x8180, name.clone(), qt, 1, vec![Rr { name: name.clone(), ptr: true, ty: 1, a: [1, 2, 3, 4], cname: String::new() },
+                                                                     Rr { name: "other.example.org".into(), ptr: false, ty: 5, a: [0; 4], cname: "alias.evil.net".into() },
+                                                                     Rr { name: "alias.evil.net".into(), ptr: false, ty: 1, a: [66, 66, 66, 66], cname: String::new() }], None, 0, dst_ip, 53, *sport),
                     };
                     let m = dns_msg(mid, mflags, &mname, mqt, qd, &rrs, trunc, evil);
                     pending.push((now + delay, ipv4_packet(src, [10, 0, 0, 1], 17, 1, 64, &udp_datagram(sp, dp, &m), true)));
